@@ -6,6 +6,7 @@
 //! terminators, '>' at line start opens a record), the generator's own knowledge of raggedness,
 //! and the input records for the write -> read laws.
 
+mod paths;
 mod reuse;
 
 use std::{
@@ -1178,7 +1179,7 @@ fn main() {
              or bgzipped in 7-byte blocks with a harness-built gzi, with/without the EOF-block entry) and inside each case every record x every region \
              start..=end with 1<=start<=end<=len+3 plus start.., ..=end and .. (wide geometries: boundary positions only in the quick tier, all in thorough). \
              distinct = distinct (file bytes, reader configuration) pairs; states = (file, reader, record) triples whose complete region set was checked. \
-             fasta_write_read / fastq_write_read: every record tuple of the listed alphabets x line width {1..5,60,unlimited} x capacity. fastq_reuse / fasta_reuse: every ordered pair and triple of a presence-spanning record set (description present/absent, long/short/empty name, sequence, qualities) x capacity {8192,1,3}, each file read with one reused record (clean, pre-dirtied with longer content), a fresh record per read and the iterator.",
+             fasta_write_read / fastq_write_read: every record tuple of the listed alphabets x line width {1..5,60,unlimited} x capacity. fasta_query_sequences: 6 documents written to a per-process temporary directory (below / above the 8 KiB BufReader capacity, LF / CRLF, with .fai and bgzipped + .gzi) x 8 public reader constructions (indexed_reader::Builder::build_from_path on .fa and .fa.gz, set_index + build_from_path, fasta::io::BufReader::Uncompressed over File / Cursor / 16-byte BufReader, BufReader::Bgzf over Cursor, Reader::query over Bgzf<File>) x every ordered pair and triple of 9 operations on ONE reader object (7 regions: start, line-crossing, near the end, far apart, whole record, first and last record; 2 sequential seek + read_definition + read_sequence), every answer against the naive parse. fastq_reuse / fasta_reuse: every ordered pair and triple of a presence-spanning record set (description present/absent, long/short/empty name, sequence, qualities) x capacity {8192,1,3}, each file read with one reused record (clean, pre-dirtied with longer content), a fresh record per read and the iterator.",
         );
         ctx.assume("miniz_oxide deflate + crc32fast (harness BGZF block maker) are correct");
         ctx.assume("std::io::BufReader / Cursor implement BufRead + Seek as documented");
@@ -1351,6 +1352,54 @@ fn main() {
             },
         );
         ctx.add_distinct((fa_t.len() * 2) as u64, (fa_t.len() * 8) as u64);
+
+        // ---- sequences of queries on one reader object, every public reader wrapper, files on disk ----
+        let tmp = paths::TempDir::new();
+        let docs_res = paths::build_docs(&tmp.0);
+        ctx.sweep(
+            "fasta_path_index",
+            1,
+            |_| "fasta::fs::index(path) and fai::fs::read(path) on 6 documents (below / above 8 KiB, LF / CRLF)".to_string(),
+            |_| match &docs_res {
+                Ok(_) => Ok(()),
+                Err(v) => Err(v.clone()),
+            },
+        );
+        let fq_res = paths::fastq_path_index(&tmp.0);
+        ctx.sweep(
+            "fastq_path_index",
+            1,
+            |_| "fastq::fs::index(path) on a 3-record and a 400-record file".to_string(),
+            |_| match &fq_res {
+                Ok(_) => Ok(()),
+                Err(v) => Err(v.clone()),
+            },
+        );
+        if let Ok(docs) = &docs_res {
+            let seqs = reuse::tuples(9);
+            let nk = paths::KINDS.len();
+            let n = (docs.len() * nk * seqs.len()) as u64;
+            let dec = |i: u64| {
+                let i = i as usize;
+                (&docs[i / (nk * seqs.len())], (i / seqs.len()) % nk, &seqs[i % seqs.len()])
+            };
+            ctx.sweep(
+                "fasta_query_sequences",
+                n,
+                |i| {
+                    let (d, k, s) = dec(i);
+                    format!("document {} reader {} operations {:?}", d.label, paths::KINDS[k], s)
+                },
+                |i| {
+                    let (d, k, s) = dec(i);
+                    let all = paths::ops(d);
+                    let seq: Vec<paths::Op> = s.iter().map(|&j| all[j].clone()).collect();
+                    paths::case(d, k, &seq)
+                },
+            );
+            ctx.add_distinct((docs.len() * nk) as u64, n);
+        }
+        drop(tmp);
 
         ctx.extra(
             "c11_counters",
